@@ -24,6 +24,9 @@ static STATE: OnceLock<Mutex<State>> = OnceLock::new();
 fn state() -> &'static Mutex<State> {
     STATE.get_or_init(|| {
         lruverif::detect_alloc();
+        // some runners raise and catch panics on purpose (poisoning a lock): libFuzzer's
+        // abort-on-panic hook must not see those
+        lruverif::tracked::install_panic_hook(false);
         let prop = std::env::var("VERIF_PROP").ok().and_then(|p| runner::static_prop(&p)).unwrap_or("C08");
         let root = std::env::var("VERIF_ROOT").unwrap_or_else(|_| "/verif".into());
         let known = runner::load_known(std::path::Path::new(&root));
